@@ -178,6 +178,19 @@ def cases(tier):
         for p in VG:
             for (r, d) in (A.RATES if thorough else A.RATES[:1]):
                 out.append({"sub": "vg-cgmy", "vg": dict(p), "T": T, "r": r, "d": d, "spot": 100.0})
+    # histories of queries on ONE pricer object (maturities / strike sets in every order): the relations of the statement
+    # are per (model, maturity, strike), so the answer of a pricer object must not depend on what it was asked before
+    hist_specs = [_spec("bs", {"sigma": 0.2}, 0.05, 0.02), _spec("hem", {"sigma": 0.05, "p": 0.6, "eta1": 20.0, "eta2": 25.0, "intensity": 3.0}, 0.02, 0.0),
+                  _spec("cgmy", {"c": 1.0, "g": 15.0, "m": 20.0, "y": 0.5}, 0.02, 0.0)]
+    if thorough:
+        hist_specs += [_spec("merton", {"sigma": 0.05, "sigma_j": 0.05, "mu_j": 0.03, "intensity": 3.0}, 0.05, 0.02),
+                       _spec("vg", {"sigma": 0.1, "nu": 0.06, "theta": 0.1}, 0.02, 0.0),
+                       _spec("cgmy", {"c": 1.0, "g": 15.0, "m": 20.0, "y": 1.2}, 0.02, 0.0)]
+    for spec in hist_specs:
+        for pricer in ("cos", "fft", "cf"):
+            if pricer == "cf" and spec["family"] != "bs":
+                continue
+            out.append({"sub": "pricer-history", "spec": spec, "pricer": pricer, "depth": 3})
     return out
 
 
@@ -638,6 +651,59 @@ def _check_cf_degenerate(sh, case):
     sh.outcome((icls, [round(float(c), 6) for c in calls[:3]]))
 
 
+def _check_pricer_history(sh, case):
+    """All ordered sequences (length <= depth) of queries from a small menu on one pricer object; every answer must equal the
+    answer of a freshly constructed pricer to the same query, bit for bit."""
+    import itertools
+
+    from rpylib.numerical.closedform.cfblackscholes import CFBlackScholes
+    from rpylib.numerical.cosmethod import COSPricer
+    from rpylib.numerical.fft import FFTPricer
+
+    spec = case["spec"]
+    icls = _icls(spec)
+    make = {"cos": COSPricer, "fft": FFTPricer, "cf": CFBlackScholes}[case["pricer"]]
+    S0 = spec.get("spot", 100.0)
+    menu = [
+        ("call", 0.5, [0.8 * S0, S0, 1.25 * S0]),
+        ("call", 2.0, [0.8 * S0, S0, 1.25 * S0]),
+        ("put", 1.0, [0.9 * S0]),
+        ("put", 2.0, [0.8 * S0, 1.1 * S0]),
+    ]
+
+    def ask(pricer, q):
+        kind, T, Ks = q
+        K = np.array(Ks, dtype=float) if len(Ks) > 1 else float(Ks[0])
+        return _vec(getattr(pricer, kind)(K, T))  # (strikes, maturity) positionally for the three pricers
+
+    fresh = {}
+    for i, q in enumerate(menu):
+        fresh[i] = ask(make(A.make_model(spec)), q)
+    n_seq = 0
+    for depth in range(1, case["depth"] + 1):
+        for seq in itertools.product(range(len(menu)), repeat=depth):
+            if depth > 1 and len(set(seq)) == 1:
+                continue
+            pricer = make(A.make_model(spec))
+            last = None
+            for i in seq:
+                last = ask(pricer, menu[i])
+            sh.count("evaluations")
+            n_seq += 1
+            want = fresh[seq[-1]]
+            if last.shape != want.shape or not np.array_equal(last, want):
+                kind, T, Ks = menu[seq[-1]]
+                sh.violation(f"{PID}:history:{make.__name__}.{kind}:answer-depends-on-earlier-queries:{icls}",
+                             f"after queries {[menu[i][:2] for i in seq[:-1]]} the pricer answers {kind}(T={T}, K={Ks}) = {last.tolist()}; "
+                             f"a fresh pricer answers {want.tolist()}", {"sequence": [list(menu[i][:2]) for i in seq]})
+                break
+        else:
+            continue
+        break
+    sh.outcome((icls, case["pricer"], n_seq, tuple(np.round(fresh[0], 6).tolist())))
+    sh.nontriv()
+
+
 def post(total, tier):
     """Vacuity guard: the documented box must not be empty.  On Black-Scholes (sigma in [0.1,0.5], no series term) the a-priori
     budget depends only on the truncation range; if fewer than half of the lattice strikes are within tolerance the range
@@ -657,5 +723,7 @@ def check_case(sh, case):
         _check_vg_cgmy(sh, case)
     elif sub == "cf-degenerate":
         _check_cf_degenerate(sh, case)
+    elif sub == "pricer-history":
+        _check_pricer_history(sh, case)
     else:
         raise ValueError(sub)
